@@ -168,6 +168,8 @@ def _gen_mm_fit(g, kind, method=None, D=None, iterations=None):
         D = min(D, 3)
         K = 2
     N = g.N(max(D + 2, 6), 20 if kind != 'cbmm' else 10)
+    if kind in ('cacgmm', 'cwmm', 'vmfmm') and g.coin(0.05):
+        N = int(g.rng.randint(2, D + 1))     # fewer frames than channels
     E = int(g.choice([2, 3, 4]))
     lead = _lead(F)
     a = {'kind': kind, 'K': K, 'D': D}
@@ -1417,3 +1419,51 @@ class _BinaryGmm:
         model = BinaryGMMTrainer().fit(x, a['K'], saliency=sal)
         spec = dict(a['x'], seed=a['seed']) if a['predict_other'] else a['x']
         return [model.kmeans.cluster_centers_, model.predict(ctx.arr(spec))]
+
+
+def copy_cacgmm(m):
+    """A new CACGMM with equal field values (no object identity shared)."""
+    from pb_bss.distribution import CACGMM, ComplexAngularCentralGaussian
+    return CACGMM(
+        weight=np.array(m.weight, copy=True),
+        cacg=ComplexAngularCentralGaussian(
+            covariance_eigenvectors=np.array(m.cacg.covariance_eigenvectors, copy=True),
+            covariance_eigenvalues=np.array(m.cacg.covariance_eigenvalues, copy=True)))
+
+
+@entry('model.edit', weight=1.5, group='mixture')
+class _ModelEdit:
+    """The caller updates a field of a model it owns: the model must behave
+    like a new model with those field values."""
+    @staticmethod
+    def gen(g):
+        ref = g.pick_model(['cacgmm'])
+        return None if ref is None else {
+            'model': ref, 'floor': float(g.choice([0.05, 0.3])),
+            'what': g.choice(['eigenvalues', 'weight'])}
+
+    @staticmethod
+    def run(ctx, a):
+        from . import digest as dg
+        m = ctx.model(a['model'])
+        obs = ctx.arr(m.origin['obs'])
+        m2 = copy_cacgmm(m.value)
+        p1 = m2.predict(obs)
+        ll1 = m2.log_likelihood(obs)
+        if a['what'] == 'eigenvalues':
+            m2.cacg.covariance_eigenvalues = np.maximum(
+                m2.cacg.covariance_eigenvalues, a['floor'])
+        else:
+            w = np.array(m2.weight, copy=True)
+            m2.weight = w[..., ::-1, :] if w.ndim >= 2 else w
+        p2 = m2.predict(obs)
+        ll2 = m2.log_likelihood(obs)
+        m3 = copy_cacgmm(m2)
+        p3 = m3.predict(obs)
+        ll3 = m3.log_likelihood(obs)
+        d = dg.first_difference([p2, ll2], [p3, ll3], 'result')
+        if d:
+            raise PurityViolation(
+                'a model whose fields the caller updated gives another result '
+                'than a new model with equal field values: ' + d)
+        return [p1, ll1, p2, ll2]
